@@ -71,6 +71,8 @@ struct Harness {
     unmodelled_state_lock: bool,
     /// one more controlled thread calls reopen_output() (the file is in place) while the others log
     reopen_thread: bool,
+    /// the first thread's records log another record (tag 9) while they are being formatted
+    recursive: bool,
 }
 
 fn harnesses() -> Vec<Harness> {
@@ -87,6 +89,7 @@ fn harnesses() -> Vec<Harness> {
         thorough_only,
         unmodelled_state_lock: false,
         reopen_thread: false,
+        recursive: false,
     };
     let num = OutK::File(Some(NamingK::Numbers));
     let mut v = vec![
@@ -126,6 +129,20 @@ fn harnesses() -> Vec<Harness> {
         v.push(x);
     }
     for (name, mode, thorough_only) in [
+        ("direct/file-numbers/2x2/recursive/unmodelled-state-lock", ModeK::Direct, false),
+        ("buffered8/file-numbers/2x2/recursive/unmodelled-state-lock", ModeK::BufDont(8), true),
+    ] {
+        let mut x = h(name, mode, num, CleanK::Never, false, 2, 2, &[9, 6], 0, thorough_only);
+        x.unmodelled_state_lock = true;
+        x.recursive = true;
+        v.push(x);
+    }
+    {
+        let mut x = h("direct/file-numbers/2x2/recursive", ModeK::Direct, num, CleanK::Never, false, 2, 2, &[9, 6], 0, false);
+        x.recursive = true;
+        v.push(x);
+    }
+    for (name, mode, thorough_only) in [
         ("direct/file-numbers/2x2+reopen-thread", ModeK::Direct, false),
         ("buffered8/file-numbers/2x2+reopen-thread", ModeK::BufDont(8), false),
         ("async-capa64/file-numbers/2x2+reopen-thread", ModeK::Async(1, 64, 0), true),
@@ -144,7 +161,7 @@ fn units(tier: &str) -> usize {
     active(tier).len() + 1
 }
 fn bounds(tier: &str) -> Value {
-    json!({"harnesses": active(tier).iter().map(|h| h.name).collect::<Vec<_>>(), "preemption_bound": if tier == "quick" { 2 } else { 3 }, "size_limit": 12, "stress_pass": "8 threads x 300 records x 4 output kinds (sampling; auxiliary)"})
+    json!({"harnesses": active(tier).iter().map(|h| h.name).collect::<Vec<_>>(), "preemption_bound": if tier == "quick" { 2 } else { 3 }, "size_limit": 12, "stress_pass": "8 threads x 300 records x 5 cases (sampling; auxiliary)"})
 }
 
 const LIMIT: u64 = 12;
@@ -170,8 +187,34 @@ struct Obs {
 
 fn expected_lines(h: &Harness) -> Vec<Vec<String>> {
     (0..h.threads)
-        .map(|t| (0..h.records).map(|r| lg::payload(t + 1, r, h.lens[(t * h.records + r) % h.lens.len()])).collect())
+        .map(|t| {
+            (0..h.records)
+                .flat_map(|r| {
+                    let len = h.lens[(t * h.records + r) % h.lens.len()];
+                    let outer = lg::payload(t + 1, r, len);
+                    // the nested record is complete before the record that produces it
+                    if h.recursive && t == 0 {
+                        vec![lg::payload(9, r, len), outer]
+                    } else {
+                        vec![outer]
+                    }
+                })
+                .collect()
+        })
         .collect()
+}
+
+/// Logs the lines of one thread (see `expected_lines`).
+fn log_lines(h: &Harness, t: usize, l: &dyn Log, lines: &[String]) {
+    if h.recursive && t == 0 {
+        for pair in lines.chunks(2) {
+            lg::log_nested(l, &pair[0], &pair[1]);
+        }
+    } else {
+        for m in lines {
+            lg::log_info(l, m);
+        }
+    }
 }
 
 /// The output must split into exactly the expected lines, each contiguous, per-thread order.
@@ -330,11 +373,8 @@ fn body(h: Harness) -> Arc<dyn Fn(&Arc<Sched>) -> Obs + Send + Sync> {
         let mut hs = Vec::new();
         for (t, lines) in exp.into_iter().enumerate() {
             let l = Arc::clone(&logger);
-            hs.push(s.spawn(&format!("log{t}"), move || {
-                for m in &lines {
-                    lg::log_info(&**l, m);
-                }
-            }));
+            let h3 = h.clone();
+            hs.push(s.spawn(&format!("log{t}"), move || log_lines(&h3, t, &**l, &lines)));
         }
         if h.reopen_thread {
             let h2 = handle.clone();
@@ -453,6 +493,7 @@ fn stress(out: &mut Out) {
         ("stress/async/file", ModeK::Async(2, 16, 0), OutK::File(Some(NamingK::Numbers))),
         ("stress/direct/file+dup-stderr", ModeK::Direct, OutK::FileDupStderr),
         ("stress/buffered/stdout", ModeK::BufDont(64), OutK::Stdout),
+        ("stress/direct/file/recursive", ModeK::Direct, OutK::File(Some(NamingK::Numbers))),
     ];
     for (name, mode, outk) in cases {
         let h = Harness {
@@ -468,6 +509,7 @@ fn stress(out: &mut Out) {
             thorough_only: false,
             unmodelled_state_lock: false,
             reopen_thread: false,
+            recursive: name.contains("recursive"),
         };
         let h2 = h.clone();
         let r = crate::run_isolated(std::time::Duration::from_secs(60), move || {
@@ -477,11 +519,10 @@ fn stress(out: &mut Out) {
             let mut ths = Vec::new();
             for (t, lines) in expected_lines(&h2).into_iter().enumerate() {
                 let (l, b) = (Arc::clone(&logger), Arc::clone(&barrier));
+                let h3 = h2.clone();
                 ths.push(std::thread::Builder::new().name(format!("fxv-stress{t}")).spawn(move || {
                     b.wait();
-                    for m in &lines {
-                        lg::log_info(&**l, m);
-                    }
+                    log_lines(&h3, t, &**l, &lines);
                 }).expect("spawn"));
             }
             for t in ths {
